@@ -139,7 +139,8 @@ Definition script_of (fixed : bool) (r : request) : script :=
            (SWork WkNone (reply_and_end ROk)))
         (reply_and_end ROk)
   | RqCoupleErrToFB _ | RqCoupleFBToErr _ =>
-      SBranch CCoupleOk (SWork WkNone (reply_and_end ROk)) (SWork WkNone (reply_and_end RErr))
+      (* SetCoupling; TRIGCOUPLING update; GROUPTRIGGER update; reply *)
+      SBranch CCoupleOk (SWork WkNone (SWork WkNone (reply_and_end ROk))) (SWork WkNone (SWork WkNone (reply_and_end RErr)))
   | RqGroupAdd _ | RqGroupDel _ =>
       if fixed
       then SBranch CConnsOk (SWork WkNone (SWork WkNone (reply_and_end ROk))) (SWork WkNone (SWork WkNone (reply_and_end RErr)))
